@@ -465,7 +465,10 @@ pub fn check_c05(cx: &C05Ctx, out: &mut Outcome) {
                             let a = apps.get(&(e, *s2));
                             let app_ended = a.map(|a| a.end_submitted.map(|x| x <= *t).unwrap_or(false) || a.resets.iter().any(|r| r.0 <= *t) || a.early_drop.map(|x| x <= *t).unwrap_or(false)).unwrap_or(false);
                             let peer_rst = ws.get(s2).map(|w| w.rst[p].iter().any(|r| r.1.map(|x| x <= *t).unwrap_or(false))).unwrap_or(false);
-                            !app_ended && !peer_rst
+                            // the endpoint's own RST_STREAM already on the wire (implicit reset after the application let go
+                            // of the stream, e.g. when send_response refused its header)
+                            let own_rst = ws.get(s2).map(|w| w.rst[i].iter().any(|r| r.0 <= *t)).unwrap_or(false);
+                            !app_ended && !peer_rst && !own_rst
                         })
                         .count();
                     if active >= limit as usize {
